@@ -185,7 +185,7 @@ func ExecAndValidate(run *core.Run, scripts []Script, o ExecOpts) *Outcome {
 		}
 		tf := filepath.Join(run.Work, fmt.Sprintf("%s-validate.ndjson", o.Name))
 		os.WriteFile(tf, buf.Bytes(), 0o644)
-		v, err := run.ValidateTrace(o.TraceSpec, tf, total, 6*time.Minute)
+		v, err := run.ValidateTrace(o.TraceSpec, tf, total, 40*time.Second+time.Duration(len(segs))*1500*time.Millisecond)
 		if err != nil && v != nil && v.Res != nil && v.Res.Status == "timeout" {
 			if len(segs) == 1 {
 				undecided++
